@@ -591,7 +591,16 @@ func installFuzz(seed uint64) {
 		x = (x ^ (x >> 30)) * 0xBF58476D1CE4E5B9
 		x = (x ^ (x >> 27)) * 0x94D049BB133111EB
 		x ^= x >> 31
-		switch x % 8 {
+		k := x % 8
+		if (site == "swamp.save.enter" || site == "gateway.set.guarded" || site == "swamp.createTreasure.created") && k < 3 {
+			k = 0 // hold more often where a record object is obtained but not yet published
+		}
+		if strings.HasSuffix(site, ".obtained") && x%2 == 0 {
+			// a writer that holds a record object but has not queued on its guard yet
+			time.Sleep(time.Duration(100+(x>>8)%500) * time.Microsecond)
+			return
+		}
+		switch k {
 		case 0:
 			time.Sleep(time.Duration(20+(x>>8)%300) * time.Microsecond)
 		case 1, 2:
@@ -628,9 +637,10 @@ var profiles = []profile{
 var modes = []string{"imm", "def", "mem"} // write interval 0 | 1 s | in-memory
 
 type step struct {
-	key  int
-	o    op
-	skip bool // fresh profile: the thread only takes part in the barrier for this key
+	key   int
+	o     op
+	skip  bool // fresh profile: the thread only takes part in the barrier for this key
+	lagUs int  // fresh profile: delay after the barrier, microseconds
 }
 
 type roundSpec struct {
@@ -702,6 +712,16 @@ func genRound(rng *common.Rng, id int, tier string) roundSpec {
 		sp.mode = "imm" // the mode the existing tests never exercise concurrently
 	}
 	sp.prof = profiles[rng.Intn(len(profiles))]
+	if id%6 == 5 {
+		sp.prof = profiles[6] // a guaranteed share of fresh-key rounds
+	}
+	if only := os.Getenv("C09_ONLY"); only != "" { // experiments: one profile only
+		for _, p := range profiles {
+			if p.name == only {
+				sp.prof = p
+			}
+		}
+	}
 	sp.nthreads = 4 + rng.Intn(13)
 	sp.nkeys = 1 + rng.Intn(3)
 	if sp.prof.name == "fresh" {
@@ -712,7 +732,10 @@ func genRound(rng *common.Rng, id int, tier string) roundSpec {
 		for t := 0; t < sp.nthreads; t++ {
 			prog := make([]step, sp.nkeys)
 			for k := range prog {
-				prog[k] = step{key: k, o: genOp(rng, sp.prof, true), skip: rng.Chance(15)}
+				// staggered arrival: some writers reach the key while the first ones are between
+				// "record object obtained", "rejected / saved" and "published"
+				lag := []int{0, 0, 0, 30, 80, 150, 300, 600}[rng.Intn(8)]
+				prog[k] = step{key: k, o: genOp(rng, sp.prof, true), skip: rng.Chance(15), lagUs: lag}
 			}
 			sp.progs = append(sp.progs, prog)
 		}
@@ -844,6 +867,9 @@ func runRound(e *engine, sp roundSpec, rng *common.Rng) roundResult {
 				}
 				if st.skip {
 					continue
+				}
+				if st.lagUs > 0 {
+					time.Sleep(time.Duration(st.lagUs) * time.Microsecond)
 				}
 				inv := atomic.AddInt64(&clock, 1)
 				var r resp
